@@ -630,6 +630,9 @@ typedef struct ares_event_thread ares_event_thread_t;
 
 void          ares_event_thread_destroy(ares_channel_t *channel);
 ares_status_t ares_event_thread_init(ares_channel_t *channel);
+/*! Wake the event thread (if in use) so it re-reads ares_timeout(): the
+ *  earliest deadline moved forward without any socket event to tell it. */
+void          ares_event_thread_wake_timeout(const ares_channel_t *channel);
 
 
 #ifdef _WIN32
